@@ -35,7 +35,8 @@ G0 == [ cfg |-> [e |-> "none"], run |-> 0, pubs |-> 0, roundStart |-> 0,
         est |-> 0, estMax |-> 0, estD |-> FALSE, everAns |-> FALSE,
         acc |-> <<>>, lowest |-> 0, maxLargest |-> 0, lastLargest |-> 0,
         lastSt |-> [e |-> "none"], stBefore |-> [e |-> "none"], lastDlv |-> "",
-        lastWire |-> [k |-> -1], ended |-> FALSE, failedSeen |-> 0, inuseSeen |-> 0, known |-> 0 ]
+        lastWire |-> [k |-> -1], ended |-> FALSE, failedSeen |-> 0, inuseSeen |-> 0, known |-> 0,
+        fl |-> <<>>, fresh |-> FALSE, lastLow |-> 0, lastProbed |-> {} ]
 
 (***************************************************************************)
 (* Ghost updates                                                           *)
@@ -57,6 +58,9 @@ LowestOf(lo, pr) == IF pr.st \in {"C", "A", "F"} THEN MinNZ(lo, pr.ttl) ELSE lo
 TargetTtls(gg) == {gg.ans[k].ttl : k \in {x \in DOMAIN gg.ans : gg.ans[x].tgt}}
 SetMin(S) == CHOOSE x \in S : \A y \in S : x <= y
 SetMax(S) == CHOOSE x \in S : \A y \in S : x >= y
+
+Flow0 == [lo |-> 0, hi |-> 0, last |-> 0, rc |-> 0, pr |-> {}]
+FlowOf(fl, id) == IF id \in DOMAIN fl THEN fl[id] ELSE Flow0
 
 Step(gg, e) ==
     CASE e.e = "cfg" ->
@@ -87,6 +91,9 @@ Step(gg, e) ==
                        !.lowest = FoldLeft(LowestOf, @, e.probes),
                        !.maxLargest = Max2(@, e.largest),
                        !.lastLargest = e.largest,
+                       !.lastLow = FoldLeft(LowestOf, 0, e.probes),
+                       !.lastProbed = {e.probes[i].ttl : i \in {j \in 1..Len(e.probes) : e.probes[j].st \in {"C", "A", "F"}}},
+                       !.fresh = TRUE,
                        !.est = IF tt = {} THEN @ ELSE MinNZ(@, SetMin(tt)),
                        !.estMax = IF tt = {} THEN @ ELSE Max2(@, SetMax(tt)),
                        !.estD = @ \/ (gg.cfg.dist \in tt),
@@ -94,6 +101,15 @@ Step(gg, e) ==
                        !.roundStart = e.t,
                        !.wire = <<>>, !.ans = <<>>, !.farthest = 0,
                        !.tgtNow = FALSE, !.lastRecv = -1]
+      [] e.e = "snap" ->
+            \* the per-flow view: the latest round is folded into the flow it was attributed to (the flow's round
+            \* count moved), with the same path length the round reported for the default flow
+            IF gg.fresh /\ "frc" \in DOMAIN e /\ e.round_flow > 0 /\ e.frc = FlowOf(gg.fl, e.round_flow).rc + 1
+            THEN LET o == FlowOf(gg.fl, e.round_flow)
+                     n == [lo |-> MinNZ(o.lo, gg.lastLow), hi |-> Max2(o.hi, gg.lastLargest), last |-> gg.lastLargest,
+                           rc |-> o.rc + 1, pr |-> o.pr \cup gg.lastProbed]
+                 IN  [gg EXCEPT !.fl = (e.round_flow :> n) @@ @, !.fresh = FALSE]
+            ELSE [gg EXCEPT !.fresh = FALSE]
       [] e.e = "end" -> [gg EXCEPT !.ended = TRUE]
       [] OTHER -> gg
 
@@ -299,6 +315,22 @@ C10_Probed   == At("pub") /\ E.largest > 0 =>
                   /\ E.largest <= Cfg.max_ttl
                   /\ \/ \E i \in 1..Len(p.wire) : p.wire[i].ttl = E.largest
                      \/ E.largest \in DOMAIN p.acc
+\* the flow the latest round was attributed to shows the same window arithmetic as the default flow, over its own rounds
+C10_Flow == At("snap") /\ "fhops" \in DOMAIN E /\ E.round_flow > 0 =>
+    LET f == FlowOf(g.fl, E.round_flow) IN
+    /\ E.frc = f.rc
+    /\ IF f.lo = 0 \/ f.hi = 0
+       THEN Len(E.fhops) = 0
+       ELSE /\ Len(E.fhops) = Max2(0, f.hi - f.lo + 1)
+            /\ \A i \in 1..Len(E.fhops) :
+                 LET t == f.lo + i - 1 IN
+                 /\ E.fhops[i].ttl = (IF t \in f.pr THEN t ELSE 0)
+                 /\ E.fhops[i].ttl > 0 => /\ E.fhops[i].is_tgt = (t = f.last)
+                                          /\ E.fhops[i].in_round = (t <= f.last)
+    /\ (f.last > 0 /\ f.last \in f.pr) => E.ftgt_ttl = f.last
+\* a route change to a responsive path of another length: from the round after the change the reported length is the
+\* new distance (scenarios of the grow family: nothing lost, rounds long enough to walk the whole path)
+C10_Regrow == At("pub") /\ Cfg.regrow /\ E.idx > Cfg.change_round => E.largest = Cfg.dist_after
 C10_NoPanic  == C09_NoPanic
 
 (***************************************************************************)
